@@ -199,9 +199,27 @@ def specMessages (fuel : Nat) (s : List Nat) (acc : List (List Nat)) : List (Lis
 def judgeDeliveries (expected : List String) (got : List String) : Bool :=
   (expected.zip got).all (fun p => p.1 == p.2) && expected.length ≤ got.length
 
-/-- `c<seed>,<n>` / `s<seed>,<n>` / `m<key>:<seed>,<n>` -/
+/-- size of the message a session token stands for -/
+def xwsSize (tok : String) : Nat :=
+  match ((tok.drop 1).toString).splitOn "," with
+  | [_, n] => n.toNat?.getD 0
+  | _ => 0
+
+/-- the implementation's results of a session against the expected ones, when messages of a back-to-back burst may
+have been dropped by a full send buffer (known finding): `some k` = the results are the expected ones with `k`
+burst messages missing, each of them written while at least 1 MiB of the burst was already queued, and `k` reads
+that timed out at the end; `none` = anything else -/
+def matchDropped : List (String × Bool) → List String → Nat → Option Nat
+  | [], got, k => if got.length == k && got.all (· == "c:timeout") then some k else none
+  | (e, droppable) :: rest, got, k =>
+    match got with
+    | g :: gs => if g == e then matchDropped rest gs k
+                 else if droppable then matchDropped rest got (k + 1) else none
+    | [] => none
+
+/-- `c<seed>,<n>` / `s<seed>,<n>` / `b<seed>,<n>` / `m<key>:<seed>,<n>` -/
 def xwsExpect (tok : String) : Option String :=
-  let side := if tok.startsWith "s" then "c:" else "s:"
+  let side := if tok.startsWith "s" || tok.startsWith "b" then "c:" else "s:"
   let d := match ((tok.drop 1).toString).splitOn ":" with
     | [_, d] => d
     | [d] => d
@@ -273,7 +291,16 @@ def step (oracleMode : Bool) (_st : Unit) (line : String) : Unit × String :=
     | "xws" :: msgs =>
       match msgs.mapM xwsExpect with
       | some exp =>
-        if oracleMode then (if goOut == " ".intercalate exp then "ok" else "bad c20.ws-message-lost-or-altered")
+        -- a burst message is "droppable" when at least 1 MiB of the burst had been written before it
+        let sizes := msgs.map fun t => if t.startsWith "b" then xwsSize t else 0
+        let before := (sizes.foldl (fun (acc : List Nat × Nat) n => (acc.1 ++ [acc.2], acc.2 + n)) ([], 0)).1
+        let droppable := (msgs.zip before).map fun (t, b) => t.startsWith "b" && b ≥ 1048576
+        if oracleMode then
+          if goOut == " ".intercalate exp then "ok"
+          else match matchDropped (exp.zip droppable) (goOut.splitOn " ") 0 with
+            | some k => if k > 0 then "bad c20.message-dropped-when-send-buffer-full" else "bad c20.ws-message-lost-or-altered"
+            | none => "bad c20.ws-message-lost-or-altered"
+        else if droppable.any id then "?"      -- whether the send buffer is full at that moment is not predicted
         else " ".intercalate exp
       | none => "bad-op"
     | _ => "bad-op"
